@@ -11,5 +11,6 @@ CONSTANTS
   CfgSW = TRUE
   CfgNidl = FALSE
   CfgSO = FALSE
+  CfgRmErr = FALSE
 INVARIANTS InvC06Step InvC06Once InvC06Gone
 CHECK_DEADLOCK FALSE
